@@ -28,7 +28,7 @@ func (m *Machine) unop(fr *frame, in *ssa.UnOp, x Value) Value {
 		switch v := x.(type) {
 		case BV:
 			if v.T == nil {
-				return mkInt(v.W, -v.C)
+				return boxInt(v.W, -v.C)
 			}
 			return m.fromTerm(m.tc.Neg(v.T))
 		case F64:
@@ -39,13 +39,13 @@ func (m *Machine) unop(fr *frame, in *ssa.UnOp, x Value) Value {
 	case token.NOT:
 		v := x.(BoolV)
 		if v.T == nil {
-			return BoolV{C: !v.C}
+			return boxBool(!v.C)
 		}
 		return m.fromTerm(m.tc.Not(v.T))
 	case token.XOR:
 		v := x.(BV)
 		if v.T == nil {
-			return mkInt(v.W, ^v.C)
+			return boxInt(v.W, ^v.C)
 		}
 		return m.fromTerm(m.tc.BNot(v.T))
 	case token.ARROW:
@@ -109,17 +109,17 @@ func (m *Machine) binop(op token.Token, xt types.Type, x, y Value) Value {
 		case token.QUO:
 			return a / b
 		case token.EQL:
-			return BoolV{C: a == b}
+			return boxBool(a == b)
 		case token.NEQ:
-			return BoolV{C: a != b}
+			return boxBool(a != b)
 		case token.LSS:
-			return BoolV{C: a < b}
+			return boxBool(a < b)
 		case token.LEQ:
-			return BoolV{C: a <= b}
+			return boxBool(a <= b)
 		case token.GTR:
-			return BoolV{C: a > b}
+			return boxBool(a > b)
 		case token.GEQ:
-			return BoolV{C: a >= b}
+			return boxBool(a >= b)
 		}
 	default:
 		switch op {
@@ -145,11 +145,11 @@ func (m *Machine) intBinop(op token.Token, signed bool, a, b BV) Value {
 		x, y := a.C, b.C
 		switch op {
 		case token.ADD:
-			return mkInt(w, x+y)
+			return boxInt(w, x+y)
 		case token.SUB:
-			return mkInt(w, x-y)
+			return boxInt(w, x-y)
 		case token.MUL:
-			return mkInt(w, x*y)
+			return boxInt(w, x*y)
 		case token.QUO, token.REM:
 			if y == 0 {
 				m.goPanicRuntime("integer divide by zero")
@@ -163,37 +163,37 @@ func (m *Machine) intBinop(op token.Token, signed bool, a, b BV) Value {
 				o = OpURem
 			}
 			r, _ := foldBin(o, uint16(w), x, y)
-			return mkInt(w, r)
+			return boxInt(w, r)
 		case token.AND:
-			return mkInt(w, x&y)
+			return boxInt(w, x&y)
 		case token.OR:
-			return mkInt(w, x|y)
+			return boxInt(w, x|y)
 		case token.XOR:
-			return mkInt(w, x^y)
+			return boxInt(w, x^y)
 		case token.AND_NOT:
-			return mkInt(w, x&^y)
+			return boxInt(w, x&^y)
 		case token.SHL:
 			if b.W != 0 && sext(y, uint16(b.W)) < 0 && false {
 			}
 			if y >= uint64(w) {
-				return mkInt(w, 0)
+				return boxInt(w, 0)
 			}
-			return mkInt(w, x<<y)
+			return boxInt(w, x<<y)
 		case token.SHR:
 			if signed {
 				if y >= uint64(w) {
 					y = uint64(w) - 1
 				}
-				return mkInt(w, uint64(sext(x, uint16(w))>>y))
+				return boxInt(w, uint64(sext(x, uint16(w))>>y))
 			}
 			if y >= uint64(w) {
-				return mkInt(w, 0)
+				return boxInt(w, 0)
 			}
-			return mkInt(w, x>>y)
+			return boxInt(w, x>>y)
 		case token.EQL:
-			return BoolV{C: x == y}
+			return boxBool(x == y)
 		case token.NEQ:
-			return BoolV{C: x != y}
+			return boxBool(x != y)
 		case token.LSS, token.LEQ, token.GTR, token.GEQ:
 			var lt, eq bool
 			if signed {
@@ -204,13 +204,13 @@ func (m *Machine) intBinop(op token.Token, signed bool, a, b BV) Value {
 			eq = x == y
 			switch op {
 			case token.LSS:
-				return BoolV{C: lt}
+				return boxBool(lt)
 			case token.LEQ:
-				return BoolV{C: lt || eq}
+				return boxBool(lt || eq)
 			case token.GTR:
-				return BoolV{C: !lt && !eq}
+				return boxBool(!lt && !eq)
 			default:
-				return BoolV{C: !lt}
+				return boxBool(!lt)
 			}
 		}
 		panic("intBinop const " + op.String())
@@ -640,9 +640,9 @@ func (m *Machine) convert(from, to types.Type, v Value) Value {
 				signed := isSigned(from)
 				if x.T == nil {
 					if signed {
-						return mkInt(w, uint64(x.sval()))
+						return boxInt(w, uint64(x.sval()))
 					}
-					return mkInt(w, x.C)
+					return boxInt(w, x.C)
 				}
 				if signed && w > x.W {
 					return m.fromTerm(m.tc.Sext(x.T, uint16(w)))
@@ -650,15 +650,15 @@ func (m *Machine) convert(from, to types.Type, v Value) Value {
 				return m.fromTerm(m.tc.Zext(x.T, uint16(w)))
 			case F64:
 				if _, s := intWidth(tt); s {
-					return mkInt(w, uint64(int64(x)))
+					return boxInt(w, uint64(int64(x)))
 				}
-				return mkInt(w, uint64(x))
+				return boxInt(w, uint64(x))
 			case Ptr:
 				// unsafe.Pointer -> uintptr: give object identity; only for nil tests
 				if x.o == nil {
-					return mkInt(w, 0)
+					return boxInt(w, 0)
 				}
-				return mkInt(w, uint64(x.o.id)<<20+uint64(x.off))
+				return boxInt(w, uint64(x.o.id)<<20+uint64(x.off))
 			}
 		case tt.Info()&types.IsFloat != 0:
 			switch x := v.(type) {
@@ -1169,41 +1169,41 @@ func (m *Machine) callBuiltin(caller *frame, b *ssa.Builtin, args []Value, site 
 	case "len":
 		switch x := args[0].(type) {
 		case Str:
-			return mkInt(64, uint64(len(x.S)))
+			return boxInt(64, uint64(len(x.S)))
 		case Slice:
-			return mkInt(64, uint64(x.len))
+			return boxInt(64, uint64(x.len))
 		case *MapObj:
 			if x == nil {
-				return mkInt(64, 0)
+				return boxInt(64, 0)
 			}
-			return mkInt(64, uint64(x.n))
+			return boxInt(64, uint64(x.n))
 		case *ChanObj:
 			if x == nil {
-				return mkInt(64, 0)
+				return boxInt(64, 0)
 			}
-			return mkInt(64, uint64(len(x.buf)))
+			return boxInt(64, uint64(len(x.buf)))
 		case Tuple: // array
 			at := b.Type().(*types.Signature).Params().At(0).Type().Underlying().(*types.Array)
-			return mkInt(64, uint64(at.Len()))
+			return boxInt(64, uint64(at.Len()))
 		case Ptr: // *array
 			at := b.Type().(*types.Signature).Params().At(0).Type().Underlying().(*types.Pointer).Elem().Underlying().(*types.Array)
-			return mkInt(64, uint64(at.Len()))
+			return boxInt(64, uint64(at.Len()))
 		}
 	case "cap":
 		switch x := args[0].(type) {
 		case Slice:
-			return mkInt(64, uint64(x.cap))
+			return boxInt(64, uint64(x.cap))
 		case *ChanObj:
 			if x == nil {
-				return mkInt(64, 0)
+				return boxInt(64, 0)
 			}
-			return mkInt(64, uint64(x.cap))
+			return boxInt(64, uint64(x.cap))
 		case Tuple:
 			at := b.Type().(*types.Signature).Params().At(0).Type().Underlying().(*types.Array)
-			return mkInt(64, uint64(at.Len()))
+			return boxInt(64, uint64(at.Len()))
 		case Ptr:
 			at := b.Type().(*types.Signature).Params().At(0).Type().Underlying().(*types.Pointer).Elem().Underlying().(*types.Array)
-			return mkInt(64, uint64(at.Len()))
+			return boxInt(64, uint64(at.Len()))
 		}
 	case "append":
 		st := b.Type().(*types.Signature).Params().At(0).Type()
@@ -1223,7 +1223,7 @@ func (m *Machine) callBuiltin(caller *frame, b *ssa.Builtin, args []Value, site 
 					m.storeSlot(dst.o, dst.off+i, v)
 				}
 			}
-			return mkInt(64, uint64(n))
+			return boxInt(64, uint64(n))
 		case Str:
 			n := dst.len
 			if len(src.S) < n {
@@ -1232,7 +1232,7 @@ func (m *Machine) callBuiltin(caller *frame, b *ssa.Builtin, args []Value, site 
 			for i := 0; i < n; i++ {
 				m.storeSlot(dst.o, dst.off+i, src.byteAt(i))
 			}
-			return mkInt(64, uint64(n))
+			return boxInt(64, uint64(n))
 		}
 	case "delete":
 		mp, _ := args[0].(*MapObj)
@@ -1396,3 +1396,39 @@ func (m *Machine) appendOp(st types.Type, s Slice, more Value) Value {
 }
 
 var _ = math.Ceil
+
+// Pre-boxed small constants: avoid an allocation per integer/boolean result.
+var smallInts [4][1024]Value
+var boxedTrue, boxedFalse Value = BoolV{C: true}, BoolV{C: false}
+
+func init() {
+	for wi, w := range []uint8{8, 16, 32, 64} {
+		for v := 0; v < 1024; v++ {
+			smallInts[wi][v] = BV{C: uint64(v) & mask(uint16(w)), W: w}
+		}
+	}
+}
+
+func boxInt(w uint8, v uint64) Value {
+	v &= mask(uint16(w))
+	if v < 1024 {
+		switch w {
+		case 8:
+			return smallInts[0][v]
+		case 16:
+			return smallInts[1][v]
+		case 32:
+			return smallInts[2][v]
+		case 64:
+			return smallInts[3][v]
+		}
+	}
+	return BV{C: v, W: w}
+}
+
+func boxBool(b bool) Value {
+	if b {
+		return boxedTrue
+	}
+	return boxedFalse
+}
